@@ -33,10 +33,10 @@ type stmt struct {
 	X     int      `json:"x"`
 	Key   string   `json:"key,omitempty"`
 	Val   string   `json:"val,omitempty"`
-	KVs   []string `json:"kvs,omitempty"` // update: k1,v1,k2,v2... in call order; the pair (resetKey, "") is a call of Reset()
-	D     [][]byte `json:"-"`             // op: the delta the model is given
-	Ops   []string `json:"-"`             // update: the context methods as the model is given them (CApp d | CReset)
-	Via   int      `json:"via,omitempty"` // copy flavour: 0 Level(Lvl) 1 Sample(nil) 2 Hook()
+	KVs   []string `json:"kvs,omitempty"`   // update: k1,v1,k2,v2... in call order; the pair (resetKey, "") is a call of Reset()
+	D     [][]byte `json:"-"`               // op: the delta the model is given
+	Ops   []string `json:"-"`               // update: the context methods as the model is given them (CApp d | CReset)
+	Via   int      `json:"via,omitempty"`   // copy flavour: 0 Level(Lvl) 1 Sample(nil) 2 Hook()
 	Lvl   int      `json:"-"`               // copy via 0: the level set
 	Level string   `json:"level,omitempty"` // the same, for the replay file
 	Muted bool     `json:"muted,omitempty"` // emit: the logger's path level is Disabled, nothing may come out (set by execute)
